@@ -10,6 +10,9 @@ import (
 	"fmt"
 
 	"github.com/tink-crypto/tink-go/v2/keyderivation"
+	cmacprfpb "github.com/tink-crypto/tink-go/v2/proto/aes_cmac_prf_go_proto"
+	commonpb "github.com/tink-crypto/tink-go/v2/proto/common_go_proto"
+	hmacprfpb "github.com/tink-crypto/tink-go/v2/proto/hmac_prf_go_proto"
 	tinkpb "github.com/tink-crypto/tink-go/v2/proto/tink_go_proto"
 	"verif/h"
 	"verif/ref"
@@ -77,4 +80,47 @@ func hkdfLimitSection(x *h.X) {
 		}
 		x.Outcome("limit/derived")
 	}
+}
+
+// Section unusable-non-enabled-entries: next to a good ENABLED primary the deriver keyset holds a DISABLED or DESTROYED
+// deriver key from which no key deriver can be built (a PRF the factory does not support). The derived keyset holds
+// one key per ENABLED key: what a non-enabled entry holds must not matter. (If the keyset is already refused when it
+// is read, nothing is judged here.)
+func unusableEntriesSection(x *h.X) {
+	which := h.Pick(x, "unusable-prf", []string{"HmacPrfKey", "AesCmacPrfKey"})
+	st := h.Pick(x, "status", []tinkpb.KeyStatusType{tinkpb.KeyStatusType_DISABLED, tinkpb.KeyStatusType_DESTROYED})
+	first := x.Choose("unusable-first", 2) == 1
+	route := h.Pick(x, "route", parseRoutes[:2])
+	dt := mkAESGCM(16, ref.Tink)
+	cfg := prfCfgs[0]
+	good := dentry{dt: dt, cfg: cfg, prfKey: ref.KeyBytes("c17-unusable-good", cfg.size), id: 0x01020304, status: tinkpb.KeyStatusType_ENABLED, primary: true}
+	var prfKD *tinkpb.KeyData
+	if which == "HmacPrfKey" {
+		prfKD = &tinkpb.KeyData{TypeUrl: urlPfx + "HmacPrfKey", KeyMaterialType: tinkpb.KeyData_SYMMETRIC,
+			Value: mustMarshal(&hmacprfpb.HmacPrfKey{Params: &hmacprfpb.HmacPrfParams{Hash: commonpb.HashType_SHA256}, KeyValue: ref.KeyBytes("c17-hmacprf", 32)})}
+	} else {
+		prfKD = &tinkpb.KeyData{TypeUrl: urlPfx + "AesCmacPrfKey", KeyMaterialType: tinkpb.KeyData_SYMMETRIC,
+			Value: mustMarshal(&cmacprfpb.AesCmacPrfKey{KeyValue: ref.KeyBytes("c17-cmacprf", 32)})}
+	}
+	ks := handKeyset([]dentry{good})
+	bad := &tinkpb.Keyset_Key{KeyData: deriverKeyData(deriverURL, prfKD, tmplOf(dt)), Status: st, KeyId: 0x00010203, OutputPrefixType: tinkpb.OutputPrefixType_TINK}
+	if first {
+		ks.Key = append([]*tinkpb.Keyset_Key{bad}, ks.Key...)
+	} else {
+		ks.Key = append(ks.Key, bad)
+	}
+	desc := fmt.Sprintf("deriver keyset [good ENABLED primary + %v deriver key over %s] (unusable first: %v) read by %s", st, which, first, route)
+	hd, err := parseKeyset(ks, route)
+	if err != nil {
+		refused(x, "keyset")
+		return
+	}
+	x.NonTrivial()
+	d, err := keyderivation.New(hd)
+	if err != nil {
+		x.Fail("new-error", "%s: keyderivation.New fails although every ENABLED key is derivable: %v", desc, err)
+		return
+	}
+	deriveAll(x, hd, []dentry{good}, desc, false)
+	_ = d
 }
